@@ -287,6 +287,26 @@ def rg_env(home):
     return env
 
 
+RG_OVERRIDE = None       # a sanitizer build of rg, set by the sanitizer legs
+SAN_DIR = None           # where sanitizer reports seen on rg's stderr are kept
+
+
+def use_rg(path, san_dir=None):
+    global RG_OVERRIDE, SAN_DIR
+    RG_OVERRIDE = path
+    SAN_DIR = san_dir
+    if san_dir:
+        os.makedirs(san_dir, exist_ok=True)
+        os.chmod(san_dir, 0o777)
+
+
+def _keep_sanitizer_report(stderr, args):
+    if SAN_DIR and (b"Sanitizer" in stderr):
+        fd, path = tempfile.mkstemp(prefix="san-", suffix=".txt", dir=SAN_DIR)
+        with os.fdopen(fd, "wb") as f:
+            f.write(("argv: %r\n" % (args,)).encode() + stderr[-20000:])
+
+
 def run_rg(args, cwd, home, rg=None, stdin=None, timeout=60, uid=None):
     """Run rg with a pinned environment. Returns (status, stdout, stderr) or
     None on watchdog expiry (inconclusive)."""
@@ -297,12 +317,23 @@ def run_rg(args, cwd, home, rg=None, stdin=None, timeout=60, uid=None):
             os.setuid(uid)
         kw["preexec_fn"] = demote
     try:
-        p = subprocess.run([rg or RG] + list(args), cwd=cwd, env=rg_env(home),
+        env = rg_env(home)
+        if RG_OVERRIDE:
+            env["ASAN_OPTIONS"] = "detect_leaks=0:halt_on_error=1:abort_on_error=0:exitcode=97"
+            env["TSAN_OPTIONS"] = "halt_on_error=0:exitcode=0"
+            timeout = timeout * 10
+        p = subprocess.run([rg or RG_OVERRIDE or RG] + list(args), cwd=cwd, env=env,
                            stdin=subprocess.DEVNULL if stdin is None else None,
                            input=stdin, stdout=subprocess.PIPE,
                            stderr=subprocess.PIPE, timeout=timeout, **kw)
     except subprocess.TimeoutExpired:
         return None
+    if RG_OVERRIDE:
+        _keep_sanitizer_report(p.stderr, args)
+        if b"ThreadSanitizer" in p.stderr:
+            # keep the monitors' stderr checks meaningful: strip the report
+            i = p.stderr.find(b"==================")
+            return p.returncode, p.stdout, p.stderr[:i] if i >= 0 else p.stderr
     return p.returncode, p.stdout, p.stderr
 
 
